@@ -249,5 +249,30 @@ CHECKS["C16"] = {
     ],
 }
 
+CHECKS["C09"] = {
+    "level": "exploration",
+    "claim": ("Hostile inputs in three families - random bytes, mutations of valid messages (bit flips, truncation at every offset, length-"
+              "field edits, attribute length overrun, duplicated/reordered attributes, unknown comprehension-required attributes, wrong-"
+              "sized attribute values, every method x class pair; the structured ones signed correctly so that post-authentication code is "
+              "reached) and structural extremes (ChannelData header grid, stream headers with declared lengths 0xFFE8..0xFFFF) - delivered "
+              "in every world state to the UDP listener, as arbitrary segmentations to the stream listener, and to Client.HandleInbound "
+              "from the server, the STUN server and strangers. Oracles: the process survives, every step reaches quiescence, whatever the "
+              "server answers is well-formed and goes to the sender, HandleInbound returns the documented (handled, error) class and never "
+              "(false, err), and a liveness probe afterwards is served (Binding from the same and from a fresh source, existing "
+              "allocations still refresh and relay, a new control connection is accepted, the client completes a transaction)."),
+    "level_note": _SRV_NOTE + " TLS/DTLS record layers are outside the repository and are not fuzzed; the TLS listener shares readLoop/STUNConn with the TCP listener, which is what is exercised. A busy loop that neither logs nor consumes input shows up as a time-budget overrun (exit 2, inconclusive), not as a violation.",
+    "technique": "property-based testing / fuzzing: seed-derived structured mutation of valid messages and header grids in generated world states, crash isolation by journaling, liveness probes; native go fuzz targets in the thorough tier",
+    "rule": "non-trivial = the input passes the first demultiplexing test (looks like STUN or ChannelData) without being a valid message, or is delivered in a non-initial state (allocation / permission / channel / pending transaction exists); distinct by hash of the script",
+    "assumptions": [],
+    "stages": [
+        {"name": "udp-listener", "pkg": "srvworld", "run": "^TestC09$",
+         "quick": {"shards": 3, "checks": 2500, "timeout_s": 420},
+         "thorough": {"shards": 16, "checks": 30000, "size": 60, "timeout_s": 2400}},
+        {"name": "stream-listener", "pkg": "srvworld", "run": "^TestC09Stream$",
+         "quick": {"shards": 3, "checks": 1500, "timeout_s": 420},
+         "thorough": {"shards": 16, "checks": 20000, "size": 50, "timeout_s": 2400}},
+    ],
+}
+
 _NOT_BUILT = "check not built yet in this round (planned, see DESIGN.md section 4)"
 PENDING = {("C%02d" % i): _NOT_BUILT for i in range(1, 21)}
